@@ -1,8 +1,27 @@
-from common import ENUMX_ASSUME, SCHEDX_ASSUME
+from common import ENUMX_ASSUME, SCHEDX_ASSUME, splice_k1memo
+
+
+def splice_g1memo(src, out):
+    """Route the three point decompressions of dkg/frostp2p.go (round1CastFromProto: commitments; round2CastFromProto:
+    verification key and verification-key share; curve.Point.FromAffineCompressed, pure and deterministic) through the
+    memoising wrapper of harness/dkg/zz_verif_c11_memo.go (key = the complete argument, a hit returns a fresh copy).
+    Nothing of charon's own code is bypassed; the n in-process nodes of a ceremony decompress the same bytes once."""
+    import os
+    s = open(src).read()
+    a = "curve.Point.FromAffineCompressed("
+    if s.count(a) != 3:
+        return None
+    s = s.replace(a, "verifG1FromCompressed(")
+    os.makedirs(os.path.dirname(out), exist_ok=True)
+    open(out, "w").write(s)
+    return out
+
 
 CHECK = {'pkgs': ['dkg', 'dkg/pedersen'],
  'libs': ['enumx', 'schedx', 'vsync'],
  'vsync': ['dkg/frostp2p.go'],
+ 'splice': {'app/k1util/k1util.go': splice_k1memo, 'dkg/frostp2p.go': splice_g1memo},
+ 'extra_files': {'app/k1util': ['zz_verif_k1memo.go']},
  'run': {'dkg': 'TestVerifC11', 'dkg/pedersen': 'TestVerifC11P'},
  'level': 'exploration',
  'engine': 'enumx',
@@ -14,7 +33,11 @@ CHECK = {'pkgs': ['dkg', 'dkg/pedersen'],
               'a broadcast is a synchronous call into the peers\' real handlers, every one-way message (signed bcast message of round 1/2, round 1 '
               'p2p shares, sent by the real p2p.Send) is captured and handed byte for byte to the recipient\'s real p2p stream handler by a '
               'controller that prescribes each recipient\'s arrival order; one ceremony = one testing/synctest bubble with quiescence after every '
-              'delivery (no timers). Deviation bounding over the delivery alphabet (0, then 1, thorough 2 deviations); for a message delivered '
+              'delivery (no timers). Deviation bounding over the delivery alphabet (0, then 1, thorough 2 deviations) plus, for one victim '
+              'recipient at a time, CROSS-ROUND delivery histories enumerated from scratch (family hist: every interleaving of the senders\' '
+              'message streams as first-delivery order x up to 2 re-deliveries of the same signed bytes at every later position, so that a '
+              'sender\'s round 1 broadcast arrives again after its round 2 broadcast, the round 2 broadcast again after that, while the victim '
+              'still waits for another peer\'s message of that round or after it has left the round); for a message delivered '
               'by two threads at once the interleavings of the two handler calls are enumerated by the schedx engine (dkg/frostp2p.go built '
               'with the vsync lock shim: every lock acquisition and every unlock of the callbacks is a scheduling point). In both parts the '
               'outputs of all nodes are judged with the real tbls primitives; candidates are re-run before they are reported (3x fresh '
@@ -39,6 +62,29 @@ CHECK = {'pkgs': ['dkg', 'dkg/pedersen'],
           'n=5 (t 2..5, v=1); conc for n=3 (v 1..2) and n=4 (v=1), all t; 2 deviations (dup/swap x dup/swap): n=3, t 2..3, v=1, every pair on '
           'one recipient (second deviation enumerated on the list produced by the first, results identical to a <=1-deviation list or to '
           'each other evaluated once) and every pair on two different recipients; no pairs for n>=4, no pairs containing late or conc. '
+          'HIST (cross-round delivery histories; one victim recipient per ceremony, the other recipients get the default delivery '
+          'base 0): the victim\'s arrival list = a first-delivery order of its 3(n-1) incoming messages + k re-deliveries (copies of the same '
+          'signed bytes; bcast accepts re-sends) of ANY of these messages, each copy at ANY position after the first delivery of that '
+          'message (a list that arises in several ways is evaluated once). First-delivery orders: glued = every interleaving of the n-1 '
+          'senders\' streams [round 1 broadcast + its p2p shares directly after it, round 2 broadcast] ((2(n-1))!/2^(n-1) orders: 6 for '
+          'n=3, 90 for n=4); p2pfirst = all p2p shares first, then every interleaving of the broadcast streams (same number; the victim\'s '
+          'round 1 then ends with a broadcast); fifo = every interleaving of the streams [r1 broadcast, r1 p2p, r2 broadcast] (20 for n=3); '
+          'perm = every permutation (720 for n=3; a round 2 broadcast overtaking the same sender\'s round 1 messages). All of them are '
+          'realisable: a sender\'s round 2 broadcast exists once the SENDER has completed round 1, independent of the victim. Options: '
+          'notail = no copy after the last first delivery (the victim has received everything there; single copies at those positions are in '
+          'dup); castsonly = only broadcasts are re-delivered; onesender = all copies are broadcasts of one sender (each sender in turn). '
+          'QUICK: n=3, t=2, v=1, EVERY node index in turn as victim (0..2): glued x k<=2 copies of any message (broadcast or p2p shares), '
+          'notail (6 x 156 lists) and p2pfirst x k<=2 castsonly notail (6 x 32 lists) = 3384 ceremonies; this contains r1,r2,r1 and '
+          'r1,r2,r1,r2 (also r1,r2,r2,r1; r1,r1,r2,r2; ...) of one sender at every position relative to the other sender\'s messages, '
+          'copies of two different senders, and a copy while the victim waits only for the other peer\'s round 1 / round 2 broadcast. '
+          'THOROUGH (33774 ceremonies): n=3,t=2,v=1, victims 0..2: fifo x k<=2 notail (20 x 156; contains glued), p2pfirst x k<=2 notail '
+          '(any message, 6 x 156), p2pfirst x exactly 3 copies castsonly notail (6 x 90); VICTIM 0 ONLY (time budget): n=3,t=2,v=1 perm x '
+          'k<=1 castsonly notail (720 x 11); n=3 (t=3,v=1) and (t=2,v=2): as quick; n=4 (t=3,v=1) glued x k<=1 notail (90 x 37) and p2pfirst '
+          'x k<=1 castsonly notail (90 x 16), n=4 (t=2,v=1) p2pfirst x exactly 2 copies onesender notail (5040 lists). Not covered: k>=3 '
+          'copies except as stated, two victims at once, other victims than node 0 where stated, k=2 for n=4 beyond onesender, n>=5; all '
+          'validators of a ceremony share the two rounds (runFrostParallel), so there is no later per-validator step into which a copy '
+          'could fall. Copies of p2p shares that get past a broken dedup make the recipient\'s ceremony fail loudly (a share is missing in '
+          'the library\'s round 2), which the property permits: silent wrong outputs come from repeated broadcasts. '
           'ORACLE (both parts), on every ceremony in which every node returns without error, per validator: equal group key and equal '
           'public shares 1..n on all nodes, secret share of node i matches public share i+1 in every node\'s map, every size-t subset of '
           'public shares recovers the group key and of secret shares threshold-signs validly under it, no size-(t-1) subset does either '
@@ -51,7 +97,11 @@ CHECK = {'pkgs': ['dkg', 'dkg/pedersen'],
             'the in-memory host replaces libp2p streams (stream = byte buffer; request/response exchanges are served at once, one-way '
             'messages are captured), testing/synctest quiescence detection, for conc the vsync lock shim and the runtime determinism overlay '
             '(map rotation 0, select in source order); cross-recipient timing is fixed to round-robin (recipients share no state); the dedup '
-            'counter reads the callbacks\' own "Ignoring duplicate" log line. Ceremonies that return an error on any node are skipped and '
+            'counter reads the callbacks\' own "Ignoring duplicate" log line; hist: re-deliveries after the victim has received every message '
+            '(notail) are left to the dup family because no output can change there. Two pure library calls are memoised by build splices (key = '
+            'the complete argument bytes, nothing of charon\'s code is bypassed): secp256k1 signature recovery/signing under app/k1util (the n '
+            'in-process nodes verify the same broadcast signatures) and BLS12-381 point decompression in dkg/frostp2p.go round1CastFromProto / '
+            'round2CastFromProto (curve.Point.FromAffineCompressed; a hit returns a fresh copy). Ceremonies that return an error on any node are skipped and '
             'counted',
  'rule': 'one evaluation = one complete ceremony (n nodes, v validators) under one pair of barrier orders (part one) or one delivery schedule '
          '/ one interleaving (part two), fully judged; distinct = (configuration, order family or deviation family, outcome class)',
@@ -61,4 +111,5 @@ CHECK["race_tests"] = {"dkg": "TestVerifRaceC11"}
 CHECK["assumptions"] = ENUMX_ASSUME + [
     "part two, conc cases: " + SCHEDX_ASSUME[0],
     "part two: deliveries are serialised (quiescence after each) except for the one concurrently repeated message of a conc case",
+    "part two, hist: one victim recipient per ceremony; re-deliveries are byte-identical copies of messages the sender really produced (no forged or altered messages)",
 ]
